@@ -248,7 +248,10 @@ Inductive op :=
 | OSet (m s : nat) (v : vec)
 | OAttrSet (m : nat) (cont name : Z) (vals : list Z)          (* create / overwrite an attribute *)
 | OAttrEdit (m : nat) (cont name : Z) (k : nat) (x : Z)       (* attribute[k] = x *)
-| OElemEdit (m : nat) (which k : nat) (el : list Z).          (* mesh.<edges|faces|cells>[k] = el *)
+| OElemEdit (m : nat) (which k : nat) (el : list Z)           (* mesh.<edges|faces|cells>[k] = el *)
+| OGrow (m : nat) (v : vec) (ne nf : list (list Z)) (ce ca : list Z).
+    (* the mesh grows through its containers: vertices.append(v), edges / faces extended by ne / nf, face_corners by
+       (ce, ca); every attribute gets its default value on the new keys *)
 
 Definition push (w : world) (m : mem) (o : obj) : world := mkw m (wobjs w ++ [o]).
 Definition akey (a : Z * Z * list Z) (cont name : Z) : bool := (fst (fst a) =? cont)%Z && (snd (fst a) =? name)%Z.
@@ -263,6 +266,16 @@ Definition with_elem (o : obj) (which k : nat) (el : list Z) : obj :=
   | 1%nat => mkobj (ocells o) (oedges o) (upd (ofaces o) k el) (occells o) (ocorn o) (oattr o) (okind o)
   | _ => mkobj (ocells o) (oedges o) (ofaces o) (upd (occells o) k el) (ocorn o) (oattr o) (okind o)
   end.
+Definition grow_attrs (l : attrs) (nv ne nf nc : nat) : attrs :=
+  map (fun a => let '(cont, name, vals) := a in
+                let k := if (cont =? 0)%Z then nv else if (cont =? 1)%Z then ne else if (cont =? 2)%Z then nf
+                         else if (cont =? 3)%Z then nc else 0%nat in
+                (cont, name, vals ++ repeat 0%Z k)) l.
+Definition grown (o : obj) (c : cell) (ne nf : list (list Z)) (ce ca : list Z) : obj :=
+  let cn := ocorn o in
+  mkobj (ocells o ++ [c]) (oedges o ++ ne) (ofaces o ++ nf) (occells o)
+        (mkcorn (fce cn ++ ce) (fca cn ++ ca) (cce cn) (cca cn) (cfe cn) (cfa cn))
+        (grow_attrs (oattr o) 1 (length ne) (length nf) (length ce)) (okind o).
 (* rotate accepts rotation matrices only (scipy's Rotation.from_matrix orthonormalises anything else) *)
 Definition teq (a b : T) : bool := leb O a b && leb O b a.
 Definition veq (a b : vec) : bool := teq (vx a) (vx b) && teq (vy a) (vy b) && teq (vz a) (vz b).
@@ -413,6 +426,11 @@ Definition step (w : world) (o : op) : option world :=
   | OElemEdit i which k el =>
       match get_mesh w i with
       | Some so => Some (mkw m (upd (wobjs w) i (with_elem so which k el)))
+      | None => None
+      end
+  | OGrow i v ne nf ce ca =>
+      match get_mesh w i with
+      | Some so => let '(m1, c) := alloc1 m v in Some (mkw m1 (upd (wobjs w) i (grown so c ne nf ce ca)))
       | None => None
       end
   end.
